@@ -69,6 +69,8 @@ func checkC15(c *Ctx) {
 
 	checkTierIdentity(c, "R8")
 	checkSnapshotImmutable(c, "R9")
+	c.Rule("R10", "a deleted member leaves the tiers: from every delete on the member map the stored object reaches a tier purge on every path, independent of its health flag")
+	checkMemberDeleteLeavesTiers(c, "R10")
 
 	// ---------------- R3
 	if h := p.Func(hostPkg, "(*Set).healthy"); h == nil {
@@ -1137,4 +1139,157 @@ func isTierMapValue(v ssa.Value, hm, hb *types.Var) bool {
 		f, _ := loadedField(y)
 		return f != nil && (f == hm || f == hb)
 	}, 2)
+}
+
+// checkMemberDeleteLeavesTiers (C15.R10, C06.R11): whoever deletes an address from the member map must take the stored
+// object out of the healthy tiers on every path, whatever the object's health flag says - the flag and the tier
+// membership are not updated together (MarkHostUnhealthy flips the flag before it takes the set lock, add inserts
+// whatever the flag says), so "it is flagged unhealthy, it has left its tier already" does not hold. Checked as two
+// path conditions: from the delete, no return is reachable without a call of a tier purger, and the purger is not
+// reachable without passing the stored object on (directly, or appended to the batch the purger is given).
+func checkMemberDeleteLeavesTiers(c *Ctx, rule string) {
+	p := c.P
+	all := p.Field(hostPkg, "Set", "all")
+	hm := p.Field(hostPkg, "Set", "healthyMain")
+	hb := p.Field(hostPkg, "Set", "healthyBackup")
+	if all == nil || hm == nil || hb == nil {
+		c.Unresolved(rule, "Set.all/healthyMain/healthyBackup")
+		return
+	}
+	// purgers: functions that delete from a tier map
+	purgers := map[*ssa.Function]bool{}
+	for _, fn := range p.FuncsIn(hostPkg) {
+		if p.isTestFn(fn) {
+			continue
+		}
+		eachInstr(fn, func(_ *ssa.BasicBlock, _ int, in ssa.Instruction) {
+			if call, ok := in.(*ssa.Call); ok && isBuiltin(call, "delete") && isTierMapValue(call.Call.Args[0], hm, hb) {
+				purgers[fn] = true
+			}
+		})
+	}
+	// the value is the object loaded from the member map (not merely something computed from it)
+	var fromAll func(v ssa.Value) bool
+	fromAll = func(v ssa.Value) bool {
+		v = stripConv(resolveCell(stripConv(v)))
+		switch x := v.(type) {
+		case *ssa.Lookup:
+			f, _ := loadedField(x.X)
+			return f == all
+		case *ssa.Extract:
+			if lk, ok := x.Tuple.(*ssa.Lookup); ok && x.Index == 0 {
+				f, _ := loadedField(lk.X)
+				return f == all
+			}
+		case *ssa.Phi:
+			for _, e := range x.Edges {
+				if e == ssa.Value(x) {
+					continue
+				}
+				if _, isPhi := e.(*ssa.Phi); isPhi || !fromAll(e) {
+					return false
+				}
+			}
+			return len(x.Edges) > 0
+		case *ssa.UnOp:
+			if al, ok := x.X.(*ssa.Alloc); ok && x.Op == token.MUL {
+				n := 0
+				for _, r := range *al.Referrers() {
+					if st, ok := r.(*ssa.Store); ok && st.Addr == ssa.Value(al) {
+						n++
+						if !fromAll(st.Val) {
+							return false
+						}
+					}
+				}
+				return n > 0
+			}
+		}
+		return false
+	}
+	// the elements of a variadic / literal slice argument
+	sliceElems := func(v ssa.Value) []ssa.Value {
+		var out []ssa.Value
+		if sl, ok := v.(*ssa.Slice); ok {
+			if al, ok := sl.X.(*ssa.Alloc); ok {
+				for _, r := range *al.Referrers() {
+					if ia, ok := r.(*ssa.IndexAddr); ok {
+						for _, r2 := range *ia.Referrers() {
+							if st, ok := r2.(*ssa.Store); ok {
+								out = append(out, st.Val)
+							}
+						}
+					}
+				}
+			}
+		}
+		return out
+	}
+	n := 0
+	for _, fn := range p.FuncsIn(hostPkg) {
+		if p.isTestFn(fn) || purgers[fn] {
+			continue
+		}
+		fn := fn
+		isPurge := func(in ssa.Instruction) bool {
+			cc := callOf(in)
+			if cc == nil {
+				return false
+			}
+			if _, isGo := in.(*ssa.Go); isGo {
+				return false
+			}
+			g := calleeFn(cc)
+			return g != nil && purgers[g]
+		}
+		handsOn := func(in ssa.Instruction) bool {
+			call, ok := in.(*ssa.Call)
+			if !ok {
+				return false
+			}
+			if isBuiltin(call, "append") && len(call.Call.Args) == 2 {
+				for _, e := range sliceElems(call.Call.Args[1]) {
+					if fromAll(e) {
+						return true
+					}
+				}
+			}
+			if isPurge(in) {
+				for _, a := range call.Call.Args {
+					if fromAll(a) {
+						return true
+					}
+					for _, e := range sliceElems(a) {
+						if fromAll(e) {
+							return true
+						}
+					}
+				}
+			}
+			return false
+		}
+		eachInstr(fn, func(b *ssa.BasicBlock, _ int, in ssa.Instruction) {
+			call, ok := in.(*ssa.Call)
+			if !ok || !isBuiltin(call, "delete") {
+				return
+			}
+			if f, _ := loadedField(call.Call.Args[0]); f != all {
+				return
+			}
+			n++
+			site := fmt.Sprintf("%s member delete#%d leaves the tiers", fnKey(fn), n)
+			if path := findPath(posOf(in), pathQuery{target: isReturn, avoid: isPurge}); path != nil {
+				c.Fail(rule, site, in.Pos(), "after the address is deleted from the member map a return is reachable without purging the healthy tiers ("+p.pathString(path)+"): the removed host stays a candidate")
+				return
+			}
+			if path := findPath(posOf(in), pathQuery{target: func(x ssa.Instruction) bool { return isPurge(x) && !handsOn(x) }, avoid: handsOn}); path != nil {
+				c.Fail(rule, site, in.Pos(), "the stored object of a deleted address does not reach the tier purge on every path ("+p.pathString(path)+"): a removed host whose health flag and tier membership disagree (a health result in flight, an object re-added with a stale flag) stays in the candidate list and keeps being handed out by Healthy()")
+				return
+			}
+			c.OK(rule, site, in.Pos(), "every path from the delete hands the stored object to a tier purger before the function returns")
+		})
+	}
+	if n == 0 {
+		c.Unresolved(rule, "no delete from Set.all outside the tier purgers")
+	}
 }
